@@ -7,6 +7,9 @@ import (
 	_ "verifharness/unit"
 	_ "verifharness/persist"
 	_ "verifharness/fifo"
+	_ "verifharness/lru"
+	_ "verifharness/adapter"
+	_ "verifharness/immunity"
 	_ "verifharness/shardid"
 )
 
